@@ -76,7 +76,11 @@ func goRegenAbi() string {
 	run := osexec.Command(bin)
 	run.Dir = dir
 	if out, err := run.CombinedOutput(); err != nil {
-		return failf("regen-run", "abi/generator.go on the checked-in abi/schemas: %v: %.200s", err, strings.ReplaceAll(string(out), "\n", " "))
+		class := "regen-run"
+		if strings.Contains(string(out), "not defined type: uint257") {
+			class = "regen-run-uint257" // the one recorded finding; any other reason keeps the unrecorded class
+		}
+		return failf(class, "abi/generator.go on the checked-in abi/schemas: %v: %.200s", err, strings.ReplaceAll(string(out), "\n", " "))
 	}
 	for _, f := range []string{"types.go", "messages_generated.go", "get_methods.go", "interfaces.go", "jetton_msg_types.go",
 		"nfts_msg_types.go", "contracts_errors.go", "messages.md"} {
@@ -168,23 +172,45 @@ func genAbi(g *h.G) {
 }
 
 func generateTlb(schema string) (string, error) {
-	parsed, err := tlbparser.Parse(schema)
-	if err != nil {
-		return "", fmt.Errorf("parse: %v", err)
-	}
-	g := tlbparser.NewGenerator()
-	return g.GenerateGolangTypes(parsed.Declarations, "", false)
+	code, _, err := generateTlbAll(schema)
+	return code, err
 }
 
+// generateTlbAll calls both exported entry points of tlb/parser's generator: GenerateGolangTypes (the Go text) and
+// GetTlbTypes (the list of declared types with their definitions that abi/parser writes out, IN ORDER).
+func generateTlbAll(schema string) (string, []tlbparser.TlbType, error) {
+	parsed, err := tlbparser.Parse(schema)
+	if err != nil {
+		return "", nil, fmt.Errorf("parse: %v", err)
+	}
+	g := tlbparser.NewGenerator()
+	code, err := g.GenerateGolangTypes(parsed.Declarations, "", false)
+	return code, g.GetTlbTypes(), err
+}
+
+// goTlbGenerate: two runs (two generator instances) give the identical Go text AND the identical list of TL-B types in
+// the identical order; that order is the documented one (ascending type name), and one more call on the same generator
+// repeats it.
 func goTlbGenerate(a []string) string {
 	schema := string(h.MustUnHex(a[0]))
-	c1, err := generateTlb(schema)
+	c1, t1, err := generateTlbAll(schema)
 	if err != nil {
 		return failf("generate", "%v", err)
 	}
-	c2, err := generateTlb(schema)
+	c2, t2, err := generateTlbAll(schema)
 	if err != nil || c1 != c2 {
 		return failf("nondeterministic", "two runs of the TL-B generator differ (%v)", err)
+	}
+	if len(t1) != len(t2) {
+		return failf("nondeterministic", "GetTlbTypes: %d types, then %d", len(t1), len(t2))
+	}
+	for i := range t1 {
+		if t1[i] != t2[i] {
+			return failf("nondeterministic", "GetTlbTypes: entry %d is %s, then %s", i, t1[i].Name, t2[i].Name)
+		}
+		if i > 0 && t1[i-1].Name >= t1[i].Name {
+			return failf("type-order", "GetTlbTypes: %s listed before %s (ascending type names expected)", t1[i-1].Name, t1[i].Name)
+		}
 	}
 	return "ok"
 }
@@ -373,6 +399,22 @@ h_a#00000001 q:uint64 = H;
 h_b#00000002 r:Refs tail:Cell = H;
 `
 
+// second fixed schema: Go's int16, odd and boundary widths of both signs, `## n`, bitsN, every Either form (X Y, X ^Y,
+// ^X Y, ^X ^Y, X ^X, ^X ^X), Maybe / Maybe ^ over them, anonymous constructor, `#_`, short hex tag, further dictionary
+// key widths, a type with five constructors
+const tlbCoverageSchema2 = `ints$_ a:int16 b:int5 c:int33 d:uint7 e:uint33 f:uint2 g:int2 h:int64 i:uint16 j:int8 k:uint8 = Ints;
+nats#_ a:(## 5) b:(## 32) c:(## 63) d:bits96 e:bits264 f:bits128 = Nats;
+_ x:int16 y:(Maybe int16) z:(Maybe ^Ints) = Anon;
+er$_ e1:(Either ^Ints ^Ints) e2:(Either ^Cell ^Cell) e3:(Either Ints ^Ints) e4:(Either ^Ints Nats) e5:(Either int16 uint16) e6:(Either Nats ^Ints) e7:(Either ^Nats ^Ints) = Er;
+er2#7a e1:(Either ^Anon ^Anon) e2:(Maybe ^Er) tail:Cell = Er2;
+dk$_ d16:(HashmapE 16 int16) d128:(HashmapE 128 Ints) d1:(HashmapE 1 ^Er) = Dk;
+f_a$000 x:int16 = Five;
+f_b$001 y:^Er = Five;
+f_c$01 z:(Either ^Ints ^Ints) = Five;
+f_d$10 = Five;
+f_e$11 w:Dk = Five;
+`
+
 func genTlb(g *h.G) {
 	g.Emit("go.regen.abi")
 	genAbi(g)
@@ -381,11 +423,13 @@ func genTlb(g *h.G) {
 	var texts []string
 	// a fixed schema first: every construct of the subset at its boundary parameters, on every run (dictionary key
 	// widths 8/32/63/64/256, integer widths 1/63/64 and Go's own 8/16/32/64, every tag form, every reference form)
-	if fixed, err := tlbmini.Parse(tlbCoverageSchema); err == nil {
+	for _, cs := range []string{tlbCoverageSchema, tlbCoverageSchema2} {
+		fixed, err := tlbmini.Parse(cs)
+		if err != nil {
+			h.Fatalf("coverage schema: %v", err)
+		}
 		schemas = append(schemas, fixed)
-		texts = append(texts, tlbCoverageSchema)
-	} else {
-		h.Fatalf("coverage schema: %v", err)
+		texts = append(texts, cs)
 	}
 	for i := 0; i < n; i++ {
 		s := tlbmini.GenSchema(rand.New(rand.NewSource(g.Rng.Int63())), 12, g.Count)
